@@ -100,6 +100,41 @@ fn main() {
             }
             0
         }
+        "corpus-diag" if args.len() >= 4 => {
+            // developer/audit tool: vcheck corpus-diag <include root> <file relative to it>...: every file
+            // below the include root is served under INCLUDE_DIR, the named file is the root; prints the
+            // diagnostics of the whole workspace
+            let base = std::path::Path::new(&args[2]);
+            let mut files: Vec<(String, String)> = Vec::new();
+            let mut stack = vec![base.to_path_buf()];
+            while let Some(d) = stack.pop() {
+                for e in std::fs::read_dir(&d).unwrap().flatten() {
+                    let p = e.path();
+                    if p.is_dir() {
+                        stack.push(p);
+                    } else if p.extension().map(|x| x == "td").unwrap_or(false) {
+                        let rel = p.strip_prefix(base).unwrap().to_string_lossy().to_string();
+                        files.push((format!("{}/{rel}", ws::INC_DIR), std::fs::read_to_string(&p).unwrap_or_default()));
+                    }
+                }
+            }
+            for rootrel in &args[3..] {
+                let root = format!("{}/{rootrel}", ws::INC_DIR);
+                let w = ws::Workspace::new(&files, &root);
+                let a = w.analysis();
+                let mut n = 0;
+                for (f, ds) in a.diagnostics() {
+                    for d in ds {
+                        n += 1;
+                        if n <= 40 {
+                            println!("{rootrel}: {} {:?} {}", w.fs.path_of(f).unwrap_or_default(), d.location.range, d.message);
+                        }
+                    }
+                }
+                println!("{rootrel}: {n} diagnostics");
+            }
+            0
+        }
         "query" if args.len() >= 4 => {
             // developer tool: vcheck query <dir> <offset> : root.td in dir, prints definition/refs/hover/diags
             let dir = std::path::Path::new(&args[2]);
